@@ -17,6 +17,8 @@ import (
 	"time"
 
 	"github.com/bmeg/grip/gripql"
+	"google.golang.org/grpc/codes"
+	"google.golang.org/grpc/status"
 	"google.golang.org/protobuf/types/known/structpb"
 	"pgregory.net/rapid"
 	"verif/internal/live"
@@ -68,10 +70,10 @@ type Case struct {
 }
 
 var (
-	wMu       sync.Mutex
-	w         *worker.Worker
-	raceSeen  = map[string]int64{} // race log file -> bytes already consumed
-	graphSeq  int
+	wMu      sync.Mutex
+	w        *worker.Worker
+	raceSeen = map[string]int64{} // race log file -> bytes already consumed
+	graphSeq int
 )
 
 func getWorker(t pbt.TB) *worker.Worker {
@@ -217,6 +219,10 @@ func runCase(t pbt.TB, c Case) {
 		var mu sync.Mutex
 		lastBySession := map[string]map[int]write{}
 		written := map[string]map[float64]bool{}
+		// ids with a write whose outcome is unknown (the call returned an error, e.g. its
+		// deadline passed on a loaded machine): it may or may not have been applied, so
+		// the final value of such an id is not judged
+		uncertain := map[string]bool{}
 		var observed []seen
 		start := make(chan struct{})
 		var wg sync.WaitGroup
@@ -239,26 +245,30 @@ func runCase(t pbt.TB, c Case) {
 						written[op.ID][op.Val] = true
 						mu.Unlock()
 						_, err := wk.Srv.Edit.AddVertex(cctx, &gripql.GraphElement{Graph: g, Vertex: vtx(op.ID, op.Val, si)})
+						mu.Lock()
 						if err == nil {
-							mu.Lock()
 							if lastBySession[op.ID] == nil {
 								lastBySession[op.ID] = map[int]write{}
 							}
 							lastBySession[op.ID][si] = write{val: op.Val, session: si}
-							mu.Unlock()
+						} else {
+							uncertain[op.ID] = true
 						}
+						mu.Unlock()
 					case "delV":
 						// only a session's private ids are deleted
 						id := fmt.Sprintf("p%d-%s", si, op.ID)
 						_, err := wk.Srv.Edit.DeleteVertex(cctx, &gripql.ElementID{Graph: g, Id: id})
+						mu.Lock()
 						if err == nil {
-							mu.Lock()
 							if lastBySession[id] == nil {
 								lastBySession[id] = map[int]write{}
 							}
 							lastBySession[id][si] = write{deleted: true, session: si}
-							mu.Unlock()
+						} else if status.Code(err) == codes.DeadlineExceeded || status.Code(err) == codes.Canceled || status.Code(err) == codes.Unavailable {
+							uncertain[id] = true
 						}
+						mu.Unlock()
 					case "putP": // private vertex
 						id := fmt.Sprintf("p%d-%s", si, op.ID)
 						mu.Lock()
@@ -268,14 +278,16 @@ func runCase(t pbt.TB, c Case) {
 						written[id][op.Val] = true
 						mu.Unlock()
 						_, err := wk.Srv.Edit.AddVertex(cctx, &gripql.GraphElement{Graph: g, Vertex: vtx(id, op.Val, si)})
+						mu.Lock()
 						if err == nil {
-							mu.Lock()
 							if lastBySession[id] == nil {
 								lastBySession[id] = map[int]write{}
 							}
 							lastBySession[id][si] = write{val: op.Val, session: si}
-							mu.Unlock()
+						} else {
+							uncertain[id] = true
 						}
+						mu.Unlock()
 					case "putE":
 						d, _ := structpb.NewStruct(map[string]interface{}{"val": op.Val})
 						wk.Srv.Edit.AddEdge(cctx, &gripql.GraphElement{Graph: g, Edge: &gripql.Edge{Gid: fmt.Sprintf("pe%d-%s", si, op.ID), Label: "E", From: op.From, To: op.To, Data: d}})
@@ -283,21 +295,35 @@ func runCase(t pbt.TB, c Case) {
 						wk.Srv.Edit.DeleteEdge(cctx, &gripql.ElementID{Graph: g, Id: fmt.Sprintf("pe%d-%s", si, op.ID)})
 					case "bulk":
 						if s, err := wk.Srv.Edit.BulkAdd(cctx); err == nil {
+							ids := []string{}
+							sendErr := false
 							for i := 0; i < op.N; i++ {
 								id := fmt.Sprintf("b%d-%s-%d", si, op.ID, i)
+								ids = append(ids, id)
 								mu.Lock()
 								if written[id] == nil {
 									written[id] = map[float64]bool{}
 								}
 								written[id][op.Val] = true
-								if lastBySession[id] == nil {
-									lastBySession[id] = map[int]write{}
-								}
-								lastBySession[id][si] = write{val: op.Val, session: si}
 								mu.Unlock()
-								s.Send(&gripql.GraphElement{Graph: g, Vertex: vtx(id, op.Val, si)})
+								if s.Send(&gripql.GraphElement{Graph: g, Vertex: vtx(id, op.Val, si)}) != nil {
+									sendErr = true
+								}
 							}
-							s.CloseAndRecv()
+							res, cerr := s.CloseAndRecv()
+							acked := cerr == nil && !sendErr && res != nil && int(res.InsertCount) == op.N && res.ErrorCount == 0
+							mu.Lock()
+							for _, id := range ids {
+								if acked {
+									if lastBySession[id] == nil {
+										lastBySession[id] = map[int]write{}
+									}
+									lastBySession[id][si] = write{val: op.Val, session: si}
+								} else {
+									uncertain[id] = true
+								}
+							}
+							mu.Unlock()
 						}
 					case "query":
 						q := gripql.NewQuery().V()
@@ -406,6 +432,10 @@ func runCase(t pbt.TB, c Case) {
 			}
 		}
 		for id, bySession := range lastBySession {
+			if uncertain[id] {
+				pbt.Class(t, "final-state:id-with-unacknowledged-write-not-judged")
+				continue
+			}
 			got, present := final[id]
 			okPresent, okAbsent := false, false
 			for _, wr := range bySession {
